@@ -84,7 +84,8 @@ def gen_case(rng, i, tier):
     sizes = {d: (sizes_all[d] if d in sizes_all else extra[d]) for d in dims}
     desc.update({"op": op, "opax": opax, "to": to, "dims": dims,
                  "call": {"boundary": rng.choice(gen.RULES), "fill_value": rng.choice(FILLS)},
-                 "keep_coords": rng.choice([None, None, True, False]), "vector_form": rng.random() < 0.25})
+                 "keep_coords": rng.choice([None, None, True, False]), "vector_form": rng.random() < 0.25,
+                 "lazy_metrics": fam == "B" and rng.random() < 0.4})
     chunks = rand_chunks(rng, sizes)
     if op == "ufunc":
         a = opax[0]
@@ -124,6 +125,7 @@ def setup_simple(desc):
 
     d9 = {"layout": desc["layout"], "extra": desc["extra"], "mseed": desc["mseed"], "ctor": desc["ctor"]}
     ds, g = c09.build(d9)
+    g_lazy = c09.build(dict(d9, lazy_metrics=True))[1] if desc.get("lazy_metrics") else g
     cm = gen.layout_coords(desc["layout"])
     shape = [ds.sizes[d] for d in desc["dims"]]
     da = xr.DataArray(gen.quarter_data(desc["dseed"], shape), dims=desc["dims"], name=desc["name"])
@@ -171,6 +173,20 @@ def setup_simple(desc):
                 if mode == "allowed-map_overlap":
                     kw["map_overlap"] = True
             return g.apply_as_grid_ufunc(user, x, axis=[(a,)], signature=sig, boundary_width=bw, **call, **kw)
+
+    if g_lazy is not g:
+        # the same closure, but evaluated on the dask-backed grid when the input is lazy
+        fn_eager = fn
+
+        def fn(x, _fe=fn_eager):  # noqa: F811
+            nonlocal g
+            is_lazy = (x.chunks is not None) if not isinstance(x, dict) else any(v.chunks is not None for v in x.values())
+            keep = g
+            g = g_lazy if is_lazy else keep
+            try:
+                return _fe(x)
+            finally:
+                g = keep
 
     return ds, g, da, fn, core_dims, involved
 
